@@ -108,6 +108,8 @@ def main(tier: str) -> int:
                 fit = np.array([float(rng.choice([0, 1, 2, 2, 5])) for _ in range(k)])
                 if rng.random() < 0.3:
                     fit[:] = 1.0
+                elif rng.random() < 0.2:
+                    fit[:] = 0.0          # all-zero weights
                 rank = np.array([float(x) for x in np.argsort(np.argsort(fit)) + 1])
                 fkey = [C.float_key(v) for v in fit]
                 psl = [[int(x) for x in p] for p in ps]
@@ -119,12 +121,17 @@ def main(tier: str) -> int:
                         todo += ["one_point_crossover", "two_point_crossover"]
                     name = todo[s % len(todo)]
                     fn = getattr(X, name)
-                    before = ps.copy()
+                    before, fit_before, rank_before = ps.copy(), fit.copy(), rank.copy()
                     numba_seed(seed)
                     child = fn(ps[:1] if False else ps, fit, rank)
                     chk.count(name)
                     if not np.array_equal(ps, before):
                         chk.fail("a crossover modified its parents", {"operator": name, "parents": psl}, {"fn": name, "clause": "inputs"})
+                    if not (np.array_equal(fit, fit_before) and np.array_equal(rank, rank_before)):
+                        chk.fail("a crossover modified the fitness / rank vector it was given",
+                                 {"operator": name, "fitness_before": fit_before.tolist(), "fitness_after": fit.tolist()}, {"fn": name, "clause": "inputs"})
+                        fit[:] = fit_before
+                        rank[:] = rank_before
                     check_child(name, ps, child)
                     outcomes.setdefault((name, n, k, binary, tuple(map(tuple, psl)), tuple(fit)), set()).add(tuple(int(x) for x in child))
                     chk.case((name, n, k, binary, tuple(int(x) for x in child)), sample={"operator": name, "parents": psl, "child": [int(x) for x in child]} if len(chk.samples) < 3 else None)
@@ -173,6 +180,8 @@ def main(tier: str) -> int:
         elif name in ("uniform_proportional_crossover", "uniform_rank_crossover"):
             w = fit if name == "uniform_proportional_crossover" else None
             support = [p for p in range(k) if (w is None or w[p] > 0)]
+            if w is not None and sum(w) == 0:
+                support = [0]
             expected = set(itertools.product(support, repeat=n))
         elif name == "one_point_crossover":
             a, b = list(psl[0]), list(psl[1])
@@ -305,6 +314,11 @@ def main(tier: str) -> int:
         else:
             kw.update(selections=(sel,), crossovers=(cx,) if cx == "empty" else (cx,), mutations=(mut,))
         o = cls(**kw)
+        # a second instance with other parameters, constructed AFTER the one under test and never run:
+        # it must not influence the first one (no state shared between instances)
+        kw2 = dict(kw)
+        kw2.update(tour_size=6, parents_num=5, mutation_rate=0.77, fitness_function=lambda x: np.zeros(len(x)))
+        cls(**kw2)
         for pool, key in ((o._selection_pool, "sel"), (o._crossover_pool, "x"), (o._mutation_pool, "m")):
             for name in list(pool.keys()):
                 ent = pool[name]
